@@ -39,7 +39,7 @@ def real_param(pid):
 
     th, beta, gamma, y, x3 = sympy.Symbol("theta"), sympy.Symbol("beta"), sympy.Symbol("gamma"), sympy.Symbol("y"), sympy.Symbol("x[3]")
     S = sympy.Symbol
-    return {"int": 1, "float": 0.5, "theta": th, "gamma": gamma, "x[3]": x3, "0.25*theta + beta": 0.25 * th + beta, "x[3] + 2*y": x3 + 2 * y,
+    return {"int": 1, "float": 0.30000000000000004, "theta": th, "gamma": gamma, "x[3]": x3, "0.25*theta + beta": 0.25 * th + beta, "x[3] + 2*y": x3 + 2 * y,
             "eta[1]": S("eta[1]"), "theta[1]": S("theta[1]"), "a[0]*alpha[0]": S("a[0]") * S("alpha[0]"), "pi": sympy.pi, "Symbol(pi)": S("pi"),
             "w[2]": S("w[2]"), "w_2": S("w_2"), "-theta": -th, "1/3": sympy.Rational(1, 3), "theta**2 - phi/3": th**2 - S("phi") / 3}[pid]
 
@@ -116,6 +116,13 @@ def params_same(p, q):
 
     if not isinstance(p, sympy.Basic) and not isinstance(q, sympy.Basic):
         return p == q
+    if not getattr(p, "free_symbols", None) and not getattr(q, "free_symbols", None) and not isinstance(p, sympy.Basic):
+        # a Python number came back as a sympy number: "equal as numbers, exactly" - the same double (a sympy Float of another
+        # precision does not compare == to the float it was printed from, although it converts back to exactly that float)
+        try:
+            return complex(q) == complex(p)
+        except TypeError:
+            return False
     if isinstance(p, sympy.Symbol) or isinstance(q, sympy.Symbol):
         return p == q
     d = sympy.expand(sympy.sympify(p) - sympy.sympify(q))
